@@ -45,6 +45,9 @@ static ola::io::EPoller *p_cur_ep = NULL;
 static bool p_desc_order = false;
 // user-data pointer -> fd, learnt from the poller's own epoll_ctl(ADD/MOD) calls (no poller internals)
 static std::map<void*, int> p_ptr_fd;
+// fds whose registration the epoll interface refuses (descriptor kind 'f'): epoll_ctl(ADD/MOD) fails with EPERM,
+// exactly what the kernel answers for a regular file
+static std::set<int> p_refused_fds;
 // virtual sleeping (timer cases): when set and nothing is ready, the timeout the poller passed is handed to this
 // hook (microseconds, negative = forever) instead of being slept for real
 static void (*p_vsleep)(long long us) = NULL;
@@ -104,7 +107,7 @@ class p_conn : public ola::io::ConnectedDescriptor {
 
 struct p_act { char op; char role; int d; };   // op a/x, role r/w
 struct p_desc {
-  bool sock, conn, doc; unsigned rk;
+  bool sock, conn, doc, refused; unsigned rk;
   vector<p_act> rs, ws, cs;
 };
 struct p_op { char k; char role; int d; vector<uint8_t> bytes; };
@@ -145,6 +148,7 @@ class p_run {
       if (dup2(q0, P_FD_BASE + d) < 0 || dup2(q1, P_PEER_BASE + d) < 0) abort();
       close(q0); close(q1);
       int fd = P_FD_BASE + d;
+      if (cfg[d].refused && epoll) p_refused_fds.insert(fd);
       fcntl(fd, F_SETFL, fcntl(fd, F_GETFL, 0) | O_NONBLOCK);
       if (cfg[d].conn) {
         p_conn *c = new p_conn(fd, cfg[d].sock, &m_gone[d]);
@@ -166,6 +170,7 @@ class p_run {
   ~p_run() {
     p_cur_ep = NULL;
     p_ptr_fd.clear();
+    p_refused_fds.clear();
     delete m_poller;     // deletes delete_on_close descriptors that are still registered
     for (size_t d = 0; d < m_cfg.size(); d++) {
       if (m_cfg[d].conn) { if (!m_gone[d]) delete m_conn[d]; }
@@ -312,7 +317,7 @@ string handle(const string &payload) {
     vector<string> f = vh::split(t[i], ':');
     if (f.size() != 5) return "bad-desc";
     p_desc d;
-    d.sock = f[0][0] == 's'; d.conn = f[0][1] == 'c'; d.doc = f[0][2] == '1';
+    d.sock = f[0][0] == 's'; d.refused = f[0][0] == 'f'; d.conn = f[0][1] == 'c'; d.doc = f[0][2] == '1';
     d.rk = atoi(f[1].c_str());
     d.rs = p_parse_script(f[2]); d.ws = p_parse_script(f[3]); d.cs = p_parse_script(f[4]);
     cfg.push_back(d);
@@ -376,6 +381,7 @@ extern "C" int __wrap_select(int nfds, fd_set *r, fd_set *w, fd_set *x, struct t
 }
 extern "C" int __real_epoll_ctl(int epfd, int op, int fd, struct epoll_event *event);
 extern "C" int __wrap_epoll_ctl(int epfd, int op, int fd, struct epoll_event *event) {
+  if ((op == EPOLL_CTL_ADD || op == EPOLL_CTL_MOD) && c16p::p_refused_fds.count(fd)) { errno = EPERM; return -1; }
   if (event && (op == EPOLL_CTL_ADD || op == EPOLL_CTL_MOD)) c16p::p_ptr_fd[event->data.ptr] = fd;
   return __real_epoll_ctl(epfd, op, fd, event);
 }
